@@ -49,6 +49,18 @@ type Config struct {
 	Sticky    int            // 0..3: probability/4 of staying with the running task when possible
 	Knobs     map[string]int // overrides for simKnob sites
 	KeepSteps int            // how many steps to keep verbatim in Result.Head
+	// Policy: which runnable task a decision picks.
+	//   0  uniformly at random from Src (with Sticky)
+	//   1  strict priority, oldest task first (a late-started task is stalled for
+	//      as long as anything older can run)
+	//   2  strict priority, youngest task first
+	//   3  PCT: a random priority per task and a few change points at which the
+	//      running task drops below everything else (Burckhardt et al., ASPLOS 2010)
+	// The unfair policies draw from Src.Aux() only, and fall back to policy 0 for
+	// the rest of the run once one task has been picked FairAfter times in a row
+	// while others were runnable (Go's scheduler is preemptive: code may spin).
+	Policy    int
+	FairAfter int // default 100000
 }
 
 type Result struct {
@@ -65,6 +77,11 @@ type Result struct {
 	Blocked     []string // sites of tasks parked when a deadlock was declared
 	Sites       map[string]int
 	LockWaits   int // times a task was found waiting for a held sim-lock
+	Policy      int
+	Stalled     int  // decisions taken by an unfair policy among two or more runnable tasks
+	MaxStall    int  // longest run of consecutive decisions one runnable task was passed over
+	Fallback    bool // an unfair policy was dropped after FairAfter picks of one task in a row
+	Changes     int  // PCT priority change points that took effect
 }
 
 type lockDepth struct {
@@ -94,6 +111,11 @@ type sched struct {
 	res   Result
 	hash  [20]byte
 	last  int
+	prio    []int // by task id (policies 1-3)
+	waiting []int // by task id: consecutive decisions passed over while runnable
+	change  []int // PCT: step numbers of the change points
+	low     int   // PCT: next priority below everything
+	streak  int
 }
 
 // Active reports whether a simulated run is in progress in this process.
@@ -330,6 +352,110 @@ func (s *sched) freeRun() {
 	}
 }
 
+// totals since the last FlushTotals (written by Run on the caller's goroutine)
+var totals struct {
+	policy                    [4]int64
+	stalled, changes, fallback int64
+	maxStall                  int64
+}
+
+// FlushTotals reports, and resets, what the unfair policies did in the runs
+// since the last call: the reach counters of the "stalled task" fault.
+func FlushTotals(count func(name string, n int64), max func(name string, n int64)) {
+	names := [4]string{"policy.random", "policy.oldest_first", "policy.youngest_first", "policy.pct"}
+	for i, n := range totals.policy {
+		if n > 0 {
+			count(names[i], n)
+		}
+	}
+	if totals.stalled > 0 {
+		count("fault.stalled_task_decisions", totals.stalled)
+	}
+	if totals.changes > 0 {
+		count("pct_change_points", totals.changes)
+	}
+	if totals.fallback > 0 {
+		count("policy.fairness_fallbacks", totals.fallback)
+	}
+	if totals.maxStall > 0 {
+		max("max_stall_decisions", totals.maxStall)
+	}
+	totals.policy, totals.stalled, totals.changes, totals.fallback, totals.maxStall = [4]int64{}, 0, 0, 0, 0
+}
+
+// DrawPolicy draws a scheduling policy from the auxiliary stream of src: half of
+// the runs keep the uniformly random policy, the others get one of the unfair
+// ones (a replay file from before the policies existed has no auxiliary tape and
+// so keeps policy 0).
+func DrawPolicy(src *choice.Source) int {
+	switch src.Aux().Intn(8) {
+	case 4:
+		return 1
+	case 5:
+		return 2
+	case 6, 7:
+		return 3
+	}
+	return 0
+}
+
+// pickPriority is the decision of the unfair policies; -1 hands the decision
+// back to the random policy.
+//
+//go:norace
+func (s *sched) pickPriority(run []*entry, lastIdx int) int {
+	aux := s.cfg.Src.Aux()
+	fair := s.cfg.FairAfter
+	if fair == 0 {
+		fair = 100000
+	}
+	if s.cfg.Policy == 3 && s.change == nil {
+		s.change = []int{}
+		for n := aux.Intn(4); n > 0; n-- {
+			s.change = append(s.change, aux.Intn(1<<uint(4+aux.Intn(14))))
+		}
+	}
+	// priorities of tasks seen for the first time
+	for len(s.prio) < len(s.tasks) {
+		id := len(s.prio)
+		switch s.cfg.Policy {
+		case 1:
+			s.prio = append(s.prio, -id)
+		case 2:
+			s.prio = append(s.prio, id)
+		default:
+			s.prio = append(s.prio, 1+aux.Intn(1<<16))
+		}
+	}
+	if s.cfg.Policy == 3 && s.last >= 0 {
+		for _, c := range s.change {
+			if c == s.res.Steps {
+				s.low--
+				s.prio[s.last] = s.low
+				s.res.Changes++
+			}
+		}
+	}
+	k := 0
+	for i, e := range run {
+		a, b := s.tasks[e.gid], s.tasks[run[k].gid]
+		if s.prio[a] > s.prio[b] || (s.prio[a] == s.prio[b] && a < b) {
+			k = i
+		}
+	}
+	if len(run) > 1 && k == lastIdx {
+		s.streak++
+		if s.streak >= fair {
+			s.res.Fallback = true
+			s.cfg.Policy = 0
+			return -1
+		}
+	} else {
+		s.streak = 0
+	}
+	return k
+}
+
 //go:norace
 func (s *sched) loop() {
 	max := s.cfg.MaxSteps
@@ -399,7 +525,10 @@ func (s *sched) loop() {
 				lastIdx = i
 			}
 		}
-		if lastIdx >= 0 && s.cfg.Sticky > 0 && len(run) > 1 {
+		if s.cfg.Policy != 0 {
+			k = s.pickPriority(run, lastIdx)
+		}
+		if k < 0 && lastIdx >= 0 && s.cfg.Sticky > 0 && len(run) > 1 {
 			if s.cfg.Src.Intn(4) < s.cfg.Sticky {
 				k = lastIdx
 			}
@@ -409,6 +538,25 @@ func (s *sched) loop() {
 		}
 		chosen := run[k]
 		id := s.tasks[chosen.gid]
+		if s.cfg.Policy != 0 {
+			for len(s.waiting) < len(s.tasks) {
+				s.waiting = append(s.waiting, 0)
+			}
+			for _, e := range run {
+				t := s.tasks[e.gid]
+				if t == id {
+					s.waiting[t] = 0
+					continue
+				}
+				s.waiting[t]++
+				if s.waiting[t] > s.res.MaxStall {
+					s.res.MaxStall = s.waiting[t]
+				}
+			}
+			if len(run) > 1 {
+				s.res.Stalled++
+			}
+		}
 		if lastIdx >= 0 && id != s.last {
 			s.res.Preemptions++
 		}
@@ -462,6 +610,7 @@ func Run(t *testing.T, cfg Config, root func()) Result {
 	}
 	s := &sched{cfg: cfg, tasks: map[uint64]int{}, autoStride: cfg.Knobs["auto.stride"], hookStride: cfg.Knobs["hook.stride"]}
 	s.res.Sites = map[string]int{}
+	s.res.Policy = cfg.Policy
 	defer func() {
 		if stepsDir != "" {
 			f, err := os.OpenFile(fmt.Sprintf("%s/steps.%d.txt", stepsDir, os.Getpid()), os.O_CREATE|os.O_APPEND|os.O_WRONLY, 0o644)
@@ -512,5 +661,16 @@ func Run(t *testing.T, cfg Config, root func()) Result {
 			atomic.StoreInt32(&Stuck, 0)
 		})
 	})
+	if cfg.Policy >= 0 && cfg.Policy < 4 {
+		totals.policy[cfg.Policy]++
+	}
+	totals.stalled += int64(s.res.Stalled)
+	totals.changes += int64(s.res.Changes)
+	if s.res.Fallback {
+		totals.fallback++
+	}
+	if int64(s.res.MaxStall) > totals.maxStall {
+		totals.maxStall = int64(s.res.MaxStall)
+	}
 	return s.res
 }
